@@ -17,6 +17,7 @@ type Config struct {
 	MaxDepth      int
 	MaxAlloc      int
 	DetSched      bool
+	MarkOnly      bool // preemption only at zzrt.Mark points (message boundaries)
 	MaxConcretize int
 	MaxDecisions  int
 	Preempt       int
